@@ -615,32 +615,49 @@ Section EvalGen.
   Lemma map_opt_ext {X Y} (F G : X -> option Y) l : (forall a, F a = G a) -> map_opt F l = map_opt G l.
   Proof. intro H. induction l as [|x l IH]; simpl; [reflexivity|]. rewrite H, IH. reflexivity. Qed.
 
-  Lemma unset_not_item d : String.eqb "UNSET" (item_name d) = false.
-  Proof. reflexivity. Qed.
+  Lemma unset_not_item f d : String.eqb "UNSET" (item_for f d) = false.
+  Proof. unfold item_for. destruct (String.eqb (item_name d) f); reflexivity. Qed.
+
+  Lemma eqb_append_us f : String.eqb f (f ++ "_") = false.
+  Proof.
+    apply String.eqb_neq. intro E. apply (f_equal String.length) in E. rewrite length_append in E. simpl in E. lia.
+  Qed.
+
+  (* the comprehension variable never has the name of the serialize function (since /repo 6bef770) *)
+  Lemma item_for_neq f d : String.eqb f (item_for f d) = false.
+  Proof.
+    unfold item_for. destruct (String.eqb (item_name d) f) eqn:E.
+    - apply String.eqb_eq in E. rewrite E. apply eqb_append_us.
+    - rewrite String.eqb_sym. exact E.
+  Qed.
 
   (* the expression computes ser_arg (value AND call log), whatever the wrapper nesting *)
-  Lemma eval_gen f : (forall d, String.eqb f (item_name d) = false) ->
+  Lemma eval_gen f :
     forall t env x nl depth v,
       assoc x env = Some v -> assoc f env = None -> assoc "UNSET" env = None ->
       eval_se ser env (gen_se t x f nl depth) = ser_arg ser f t nl (Nat.eqb depth 0) v.
   Proof.
-    intros Hf. induction t as [nm|t' IH|t' IH]; intros env x nl depth v Hx Hfe Hu.
+    induction t as [nm|t' IH|t' IH]; intros env x nl depth v Hx Hfe Hu.
     - simpl. destruct nl; simpl.
       + rewrite Hx. unfold is_unset_test. rewrite Hu.
         destruct (is_none v || (Nat.eqb depth 0 && is_unset v)); [reflexivity|].
         simpl. rewrite ?Hfe, ?Hx. reflexivity.
       + rewrite ?Hfe, ?Hx. reflexivity.
-    - assert (Hcomp : eval_se ser env (EComp (item_name depth)
-                         (gen_se t' (item_name depth) f true (Datatypes.S depth)) x) =
+    - assert (Hcomp : eval_se ser env (EComp (item_for f depth)
+                         (gen_se t' (item_for f depth) f true (Datatypes.S depth)) x) =
                       match v with
                       | PList l => option_map (fun rs => (PList (map fst rs), List.concat (map snd rs)))
                                               (map_opt (ser_arg ser f t' true false) l)
                       | _ => None end).
       { simpl. rewrite Hx. destruct v; try reflexivity. f_equal. apply map_opt_ext. intro a.
-        apply (IH ((item_name depth, a) :: env) (item_name depth) true (Datatypes.S depth) a).
+        apply (IH ((item_for f depth, a) :: env) (item_for f depth) true (Datatypes.S depth) a).
         - simpl. rewrite String.eqb_refl. reflexivity.
-        - simpl. rewrite Hf. exact Hfe.
-        - simpl. rewrite ?unset_not_item. exact Hu. }
+        - change (assoc f ((item_for f depth, a) :: env)) with
+            (if String.eqb f (item_for f depth) then Some a else assoc f env).
+          rewrite item_for_neq. exact Hfe.
+        - change (assoc "UNSET" ((item_for f depth, a) :: env)) with
+            (if String.eqb "UNSET" (item_for f depth) then Some a else assoc "UNSET" env).
+          rewrite unset_not_item. exact Hu. }
       simpl gen_se. destruct nl.
       + simpl eval_se. rewrite Hx. unfold is_unset_test. rewrite Hu. simpl ser_arg.
         destruct (is_none v || (Nat.eqb depth 0 && is_unset v)); [reflexivity|].
@@ -764,11 +781,10 @@ Section Call.
   Lemma names_facts :
     (forall k, In k (map py vs) -> py_ok_name k = true) /\ NoDup (map py vs) /\
     ~ In "gql" (map py vs) /\ ~ In "UNSET" (map py vs) /\
-    (forall v f, In v vs -> var_ser S (v_type v) = Some f ->
-       ~ In f (map py vs) /\ query_like f = false /\ is_item_name f = false /\ f <> "UNSET").
+    (forall v f, In v vs -> var_ser S (v_type v) = Some f -> ~ In f (map py vs)).
   Proof.
     pose proof Hnames as Hn. unfold names_wf in Hn. fold py in Hn.
-    apply andb_true_iff in Hn as [Hn H6]. apply andb_true_iff in Hn as [Hn H5].
+    apply andb_true_iff in Hn as [Hn H5].
     apply andb_true_iff in Hn as [Hn H4]. apply andb_true_iff in Hn as [Hn H3].
     apply andb_true_iff in Hn as [H1 H2].
     split; [|split; [|split; [|split]]].
@@ -776,14 +792,8 @@ Section Call.
     - apply nodup_str_NoDup; exact H2.
     - apply mem_str_false. apply negb_true_iff; exact H3.
     - apply mem_str_false. apply negb_true_iff; exact H4.
-    - intros v f Hv Hf. rewrite forallb_forall in H5, H6. specialize (H5 v Hv). specialize (H6 v Hv).
-      rewrite Hf in H5. unfold ser_name_ok in H6. rewrite Hf in H6.
-      apply andb_true_iff in H6 as [Hs E5]. apply andb_true_iff in Hs as [E3 E4].
-      repeat split.
-      + apply mem_str_false. apply negb_true_iff; exact H5.
-      + apply negb_true_iff; exact E3.
-      + apply negb_true_iff; exact E4.
-      + apply String.eqb_neq. apply negb_true_iff; exact E5.
+    - intros v f Hv Hf. rewrite forallb_forall in H5. specialize (H5 v Hv). rewrite Hf in H5.
+      apply mem_str_false. apply negb_true_iff; exact H5.
   Qed.
 
   (* --- the generator's output --- *)
@@ -881,11 +891,8 @@ Section Call.
     rewrite H0. reflexivity.
   Qed.
 
-  Definition qv : string := hd "query" (variable_names g).
+  Definition qv : string := hd "query" (variable_names S g).
   Definition env1 : list (string * pyval) := (qv, query_text) :: env0.
-
-  Lemma strip_us_cons x : strip_us ("_" ++ x) = strip_us x.
-  Proof. reflexivity. Qed.
 
   Lemma fresh_local_query_like : forall m names x, query_like x = true -> query_like (fresh_local m names x) = true.
   Proof.
@@ -893,13 +900,16 @@ Section Call.
     destruct (mem_str x names); [|exact H]. apply IH. exact H.
   Qed.
 
-  (* the method's `query` local is renamed until it is no parameter; it always looks like _..._query *)
-  Lemma qv_free : ~ In qv (map py vs) /\ query_like qv = true.
+  (* the method's `query` local is renamed until it is neither a parameter nor a name the body calls; it always looks
+     like _..._query *)
+  Lemma qv_free : ~ In qv (map py vs) /\ query_like qv = true /\ ~ In qv (called_names S).
   Proof.
-    unfold qv, variable_names. cbn [map hd]. split.
-    - intro H. apply params_names in H.
-      apply (local_name_free ("self" :: map p_name (g_params g)) "query"). right. exact H.
+    unfold qv, variable_names. cbn [map hd].
+    pose proof (local_name_free (("self" :: map p_name (g_params g)) ++ called_names S) "query") as Hfree.
+    split; [|split].
+    - intro H. apply params_names in H. apply Hfree. apply in_or_app. left. right. exact H.
     - unfold local_name. apply fresh_local_query_like. reflexivity.
+    - intro H. apply Hfree. apply in_or_app. right. exact H.
   Qed.
 
   Lemma env1_other k : k <> qv -> assoc k env1 = assoc k env0.
@@ -911,10 +921,17 @@ Section Call.
     intro; subst k. apply (proj1 qv_free). exact Hk.
   Qed.
 
-  Lemma env1_free k : ~ In k (map py vs) -> query_like k = false -> assoc k env1 = None.
+  Lemma env1_free k : ~ In k (map py vs) -> k <> qv -> assoc k env1 = None.
+  Proof. intros Hk Hq. rewrite env1_other; [apply env0_out; exact Hk|exact Hq]. Qed.
+
+  Lemma var_ser_called t f : var_ser S t = Some f -> In f (called_names S).
   Proof.
-    intros Hk Hq. rewrite env1_other; [apply env0_out; exact Hk|].
-    intro; subst k. rewrite (proj2 qv_free) in Hq. discriminate.
+    unfold var_ser, called_names. intro H.
+    destruct (lookup_type S (named_of t)) as [[b|[c|]|vals|fs]|] eqn:El; try discriminate.
+    simpl in H. destruct (sc_ser c) as [f0|] eqn:Es; [|discriminate]. inversion H; subst.
+    unfold lookup_type in El. destruct (builtin_of (named_of t)); [discriminate|].
+    apply assoc_In_pair in El. right. apply in_flat_map.
+    exists (named_of t, DCustom (Some c)). split; [exact El|]. simpl. rewrite Es. left; reflexivity.
   Qed.
 
   (* --- the serialize function chosen by the generator is the one of the variable's named type --- *)
@@ -972,15 +989,14 @@ Section Call.
     assert (Hpy : In (py v) (map py vs)) by (apply in_map; exact Hv).
     destruct (var_ser S (v_type v)) as [f|] eqn:Ef.
     - destruct names_facts as [_ [_ [_ [N5 N6]]]].
-      destruct (N6 v f Hv Ef) as [F1 [F2 [F4 F5]]].
+      pose proof (N6 v f Hv Ef) as F1.
+      destruct qv_free as [_ [Hql Hqc]].
       rewrite (eval_gen ser f) with (v := argof (py v)).
       + simpl Nat.eqb. destruct (ser_arg ser f (v_type v) true true (argof (py v))) as [[w lg]|]; [|discriminate].
         simpl in Hw. inversion Hw; subst. exists lg. reflexivity.
-      + intro d. destruct (String.eqb f (item_name d)) eqn:E; [|reflexivity].
-        apply String.eqb_eq in E. subst f. unfold is_item_name in F4. rewrite item_prefix in F4. discriminate.
       + apply env1_py; exact Hpy.
-      + apply env1_free; assumption.
-      + apply env1_free; [exact N5|reflexivity].
+      + apply env1_free; [exact F1|]. intro E. apply Hqc. rewrite <- E. eapply var_ser_called; exact Ef.
+      + apply env1_free; [exact N5|]. intro E. rewrite <- E in Hql. discriminate.
     - inversion Hw. exists []. change (eval_se ser env1 (EVar (py v))) with
         (option_map (fun x => (x, @nil (string * pyval))) (assoc (py v) env1)).
       rewrite (env1_py _ Hpy). reflexivity.
@@ -1023,7 +1039,7 @@ Section Call.
     exists kv. split.
     - intros m Hm. unfold call_method. rewrite Hgen, sig_ok_holds. cbn [negb]. rewrite bind_holds.
       destruct names_facts as [_ [_ [N3 _]]]. rewrite (env0_out "gql" N3).
-      change (hd "query" (variable_names g)) with qv. change ((qv, query_text) :: env0) with env1.
+      change (hd "query" (variable_names S g)) with qv. change ((qv, query_text) :: env0) with env1.
       rewrite Hev, (Hkv m Hm). reflexivity.
     - intros v Hv. apply (convert_dict_lookup ser S snake n dct kv (v_name v) (W v)).
       + apply Hkv. apply le_n.
@@ -1124,10 +1140,48 @@ Section Naming.
 
   (* distinct GraphQL variable names + mangled names that are identifiers (+ sane serialize function names):
      the assigned parameters are valid, pairwise distinct, never reserved *)
-  Lemma naming_wf extra vs :
-    NoDup (map v_name vs) -> names_ok S snake vs = true -> names_wf S (naming S snake extra vs) vs = true.
+  (* ---- the mangled name of a GraphQL name is always an identifier and no keyword (since /repo 70630f0) ---- *)
+  Lemma forallb_suffix_if b x : forallb is_name_char x = true -> forallb is_name_char (suffix_if b x) = true.
+  Proof. intro H. unfold suffix_if. destruct b; [|exact H]. rewrite forallb_app, H. reflexivity. Qed.
+
+  Lemma arg_name_chars n : gql_name n = true -> forallb is_name_char (process_name (arg_flags snake) n) = true.
   Proof.
-    intros Hnd Hok. unfold names_ok in Hok. apply andb_true_iff in Hok as [Hid Hser].
+    intro Hg. destruct (gql_name_chars n Hg) as [Hc Hne].
+    unfold process_name, process_name_with, arg_flags. simpl.
+    set (p1 := if snake then Names.snake n else n).
+    assert (H1 : forallb is_name_char p1 = true).
+    { unfold p1. destruct snake; [apply snake_go_name_chars|exact Hc]. }
+    set (p3 := suffix_if (iskeyword p1) p1).
+    assert (H3 : forallb is_name_char p3 = true) by (apply forallb_suffix_if; exact H1).
+    destruct n as [|c r]; [exact H3|]. destruct p3 as [|c3 r3] eqn:E3; [|exact H3].
+    destruct (all_us (c :: r)); [reflexivity|reflexivity].
+  Qed.
+
+  Definition starts_with_us (l : chars) : bool := match l with c :: _ => is_us c | [] => false end.
+
+  Lemma no_keyword_starts_us : forallb (fun k => negb (starts_with_us k)) kwlist = true.
+  Proof. vm_compute. reflexivity. Qed.
+
+  Lemma base_ident x : gql_name (s2l x) = true -> ident_ok (base_name snake x) = true.
+  Proof.
+    intro Hg. unfold base_name, ident_ok.
+    destruct (py_identifier (process_name (arg_flags snake) (s2l x))) eqn:Ei.
+    - rewrite s2l_l2s, Ei. rewrite (process_not_keyword (arg_flags snake) (s2l x) Hg). reflexivity.
+    - rewrite s2l_app, s2l_l2s. simpl s2l. apply andb_true_iff. split.
+      + unfold py_identifier, gql_name. simpl. apply (arg_name_chars (s2l x) Hg).
+      + apply negb_true_iff. unfold iskeyword.
+        destruct (mem_chars ("_"%char :: process_name (arg_flags snake) (s2l x)) kwlist) eqn:E; [|reflexivity].
+        apply mem_chars_In in E. pose proof no_keyword_starts_us as Hk. rewrite forallb_forall in Hk.
+        specialize (Hk _ E). simpl in Hk. discriminate.
+  Qed.
+
+  Lemma naming_wf extra vs :
+    NoDup (map v_name vs) -> forallb (fun v => gql_name (s2l (v_name v))) vs = true ->
+    names_wf S (naming S snake extra vs) vs = true.
+  Proof.
+    intros Hnd Hgql.
+    assert (Hid : forallb (fun v => ident_ok (base_name snake (v_name v))) vs = true).
+    { apply forallb_forall. intros v Hv. rewrite forallb_forall in Hgql. apply base_ident. apply Hgql; exact Hv. }
     unfold names_wf. rewrite (naming_names S snake extra vs Hnd).
     set (bases := map (base_name snake) (map v_name vs)).
     set (used := (reserved_names S ++ extra)%list).
@@ -1156,7 +1210,6 @@ Section Naming.
     - rewrite Hres; [reflexivity|]. right; right; right; left; reflexivity.
     - apply forallb_forall. intros v Hv. destruct (var_ser S (v_type v)) as [f|] eqn:Ef; [|reflexivity].
       rewrite Hres; [reflexivity|]. eapply var_ser_reserved; exact Ef.
-    - exact Hser.
   Qed.
 End Naming.
 
@@ -1169,6 +1222,6 @@ Proof.
   destruct (negb (sig_ok g)); [reflexivity|].
   destruct (bind (g_params g) kwargs) as [env0|]; [|reflexivity].
   destruct (assoc "gql" env0); [reflexivity|].
-  destruct (eval_dict ser ((hd "query" (variable_names g), query_text) :: env0) (g_dict g)) as [[|e d]|];
+  destruct (eval_dict ser ((hd "query" (variable_names S g), query_text) :: env0) (g_dict g)) as [[|e d]|];
     reflexivity.
 Qed.
